@@ -46,3 +46,20 @@ prop("C03", [
          "watchdog; transitions = parser feed+parse steps; non-trivial = distinct inputs with a non-empty garbage part",
     assumptions=COMMON_ASSUME,
     bounds={"quick": "L=4, Lv=3, Dt=3", "thorough": "L=5, Lv=4, Dt=4 (until the deadline)"})
+
+prop("C04", [
+    {"name": "c04_sequences", "sources": ["c04_sequences.cc"], "flavour": "asan",
+     "args": {"quick": ["--K=2", "--timeout-ms=10000", "--deadline-s=150"],
+              "thorough": ["--K=3", "--timeout-ms=20000", "--deadline-s=1200"]}},
+],
+    rule="one case = one sequence of <=K events on one connection; server side: 11 request events (bodyless, query, "
+         "cookie, Content-Length, chunked, with header; abandoned by an error: length+chunked, bad chunk after a "
+         "chunk, unknown method, bad version, oversize in mid-body) x 3 deliveries (whole, cut inside, byte by byte) "
+         "through a real Http::Handler + Tcp::Transport over a socketpair; client side: 8 response events x 3 "
+         "deliveries through a real Experimental::Connection::handleResponsePacket; oracle: k-th observation equals "
+         "the fresh-connection observation and the parser is back in the fresh state; states = distinct "
+         "(parser state, observation) pairs; transitions = event-loop steps / packets; non-trivial = sequences of "
+         "length >= 2",
+    assumptions=COMMON_ASSUME + ["pipelined requests (two requests in one read) are outside the alphabet: the "
+                                 "server discards the buffer on completion by design"],
+    bounds={"quick": "all sequences of length <= 2", "thorough": "all sequences of length <= 3"})
